@@ -46,6 +46,7 @@ var (
 	ErrPreBlockMissMatch    = errors.New("play block failed because pre-hash != latest_block")
 	ErrUnexpected           = errors.New("this is a unexpected error")
 	ErrInvalidAutogenTx     = errors.New("found invalid autogen-tx")
+	ErrInvalidCoinbaseTx    = errors.New("found invalid coinbase-tx")
 	ErrUTXODuplicated       = errors.New("found duplicated utxo in same tx")
 	ErrRWSetInvalid         = errors.New("RWSet of transaction invalid")
 	ErrACLNotEnough         = errors.New("ACL not enough")
@@ -1277,6 +1278,11 @@ func (t *State) procTodoBlkForWalk(todoBlocks []*pb.InternalBlock) (err error) {
 				if ok, err := t.ImmediateVerifyTx(tx, false); !ok {
 					return fmt.Errorf("immediate verify tx error.txid:%s,err:%v", showTxId, err)
 				}
+			}
+			// a transaction flagged coinbase is exempt from both verifications above, so it has to
+			// be a pure award: it may create outputs, nothing else
+			if tx.Coinbase && !verifyCoinbaseTxValid(tx) {
+				return fmt.Errorf("immediate verify coinbase tx error.txid:%s,err:%v", showTxId, ErrInvalidCoinbaseTx)
 			}
 
 			// 执行交易
